@@ -3,6 +3,8 @@ import PegVerif.Proofs.Complete
 import PegVerif.Proofs.Boundary
 import PegVerif.Proofs.PegRelation
 import PegVerif.Proofs.Termination
+import PegVerif.Proofs.RefineLR
+import PegVerif.Proofs.NonVacuity
 /-
   C01 – generated parsers recognise exactly the PEG language of the grammar.
 
@@ -98,6 +100,38 @@ example :
     wfCheck g {} = false := by
   decide +kernel
 
+/-! ### grammars WITH `@leftrec` rules (SpecLR.lean, Proofs/RefineLR.lean)
+
+  `SpecLR.eval` is the reference semantics extended by the documented meaning of `@leftrec` (grow the match from
+  the failing seed while it gets strictly further; nothing is remembered afterwards; `@memoize` is ignored).  It is
+  fuel-monotone, deterministic, and *equal* to `Spec.eval` on grammars without `@leftrec` rules.  `LROk` is the
+  decidable class the property's quantifier describes: left recursion goes through `@leftrec` rules only, and no
+  other `@leftrec` or `@memoize` rule is reachable inside a cycle before input is consumed (precedence towers
+  `E → T → F` are in the class). -/
+
+/-- **soundness with left recursion**: the generated parser (model) computes the answer of the reference
+    semantics with left recursion – acceptance, tree, consumed bytes – for every grammar of the class, any set of
+    `@memoize` rules outside the cycles, every rule and input -/
+theorem C01_sound_leftrec (env : Env) (hp : PureHooks env.hooks) (hok : LROk env.g env.settings)
+    {n : Nat} {rule : String} {inp : List UInt8} {u : Nat} {r g}
+    (h : parseAdvanced env n rule inp u = some (r, g)) :
+    ∃ m, SpecLR.parse env u m rule inp = some (abs r) :=
+  eval_refLR env hp hok h
+
+/-- the extended reference semantics is deterministic … -/
+theorem C01_leftrec_reference_unique (env : Env) (u : Nat) {n m : Nat} {rule inp r r'}
+    (h : SpecLR.parse env u n rule inp = some r) (h' : SpecLR.parse env u m rule inp = some r') : r = r' :=
+  SpecLR.parse_det env u h h'
+
+/-- … and conservative: without `@leftrec` rules it *is* the PEG reading, at the same fuel -/
+theorem C01_leftrec_reference_conservative {env : Env} (hnl : NoLeftrec env.g) (u fuel : Nat) (rule : String)
+    (inp : List UInt8) : SpecLR.parse env u fuel rule inp = Spec.parse env u fuel rule inp :=
+  SpecLR.parse_eq_spec hnl u fuel rule inp
+
+/-- non-vacuity: the calculator tower `E = l:*E '+' r:T | t:T; T = l:*T '*' r:F | f:F; F = '(' e:*E ')' | n:Num` is
+    in the class -/
+example : LROk LRExample.calcEnv.g LRExample.calcEnv.settings := by decide
+
 /-! ### terminals match exactly the characters the syntax reference says (at a character boundary
     of valid UTF-8: `At cs pre rem s` = consumed `pre`, remaining `rem`) -/
 
@@ -173,8 +207,7 @@ theorem C01_choice_next (env : Env) (rec : SRec) (ctx : Ctx) (fields) (a : Expr)
 
 /-- optionals never fail -/
 theorem C01_opt_never_fails (env : Env) (rec : SRec) (n : Nat) (ctx : Ctx) (b : Expr) (s : St) {out}
-    (h : Spec.stepExpr env rec n ctx (.opt b) s = some out) : out ≠ .err noErr ∨ False := by
-  left
+    (h : Spec.stepExpr env rec n ctx (.opt b) s = some out) : out ≠ .err noErr := by
   simp only [Spec.stepExpr] at h
   split at h
   · cases h
@@ -216,5 +249,128 @@ example :
     (match parseAdvanced env 10 "A" [97, 98] 0 with
      | some (.ok _ s, _) => s.off == 1 && s.rest == [98]
      | _ => false) = true := by decide
+
+/-! ## non-vacuity (BEGIN) -/
+namespace C01_nv
+open Peg.NV
+
+/-- `At` from its (decidable) unfolding -/
+theorem at_of {cs pre rem : List Char} {s : St}
+    (h : (cs = pre ++ rem ∧ s.off = (enc pre).length ∧ s.rest = enc rem)) : At cs pre rem s := h
+
+/-! instance: `NV.env0` = `@export S = first:Num {'+' rest:Num} | word:Word; @string Num = {'0'..'9'}+;
+    @string Word = {'a'..'z'}+;` (skipping on), input `"1 + 23"` -/
+
+/-- the hypotheses of `C01_sound` … `C01_exactly_the_peg_language` hold together -/
+example : PureHooks env0.hooks ∧ NoLeftrec env0.g ∧ wfCheck env0.g env0.settings = true :=
+  ⟨env0_pure, env0_noLeftrec, by decide⟩
+
+theorem run_some : (parseAdvanced env0 20 "S" inp1 0).isSome = true := by decide
+theorem spec_some : (Spec.parse env0 0 20 "S" inp1).isSome = true := by decide
+
+/-- the run the theorems talk about: the closure runs twice (second time the body fails), whitespace is
+    skipped before `+` and `23`, the first alternative wins -/
+example : show' (parseAdvanced env0 20 "S" inp1 0) =
+    some ("S { first: Some(S\"31\"), rest: [S\"3233\"], word: None }", 6) := by decide
+/-- … and a failing one (`"?"`): both alternatives fail -/
+example : (match parseAdvanced env0 20 "S" inp3 0 with | some (.err e, _) => e.pos == 0 | _ => false) = true := by
+  decide
+
+/-- `C01_sound` instantiated -/
+example : ∃ m, Spec.parse env0 0 m "S" inp1 = some (abs ((parseAdvanced env0 20 "S" inp1 0).get run_some).1) :=
+  C01_sound env0 env0_pure env0_noLeftrec "S" inp1 0 20 (run_eq run_some)
+
+/-- the reference answer it refers to is the same tree -/
+example : (match Spec.parse env0 0 20 "S" inp1 with
+    | some (.ok v s) => v.render == "S { first: Some(S\"31\"), rest: [S\"3233\"], word: None }" && s.off == 6 && s.far == none
+    | _ => false) = true := by decide
+
+/-- `C01_deterministic` on two different fuels -/
+example : (parseAdvanced env0 25 "S" inp1 0).isSome = true := by decide
+example (h25 : (parseAdvanced env0 25 "S" inp1 0).isSome = true) :
+    abs ((parseAdvanced env0 20 "S" inp1 0).get run_some).1 = abs ((parseAdvanced env0 25 "S" inp1 0).get h25).1 :=
+  C01_deterministic env0 env0_pure env0_noLeftrec "S" inp1 0 20 25 (run_eq run_some) (run_eq h25)
+
+/-- `C01_complete` / `C01_unique` instantiated at the reference run -/
+example : ∃ n r' g', parseAdvanced env0 n "S" inp1 0 = some (r', g') ∧
+    abs r' = (Spec.parse env0 0 20 "S" inp1).get spec_some :=
+  C01_complete env0 env0_pure env0_noLeftrec "S" inp1 0 20 (Option.some_get spec_some).symm
+
+/-- `C01_terminates(_impl)` instantiated: every input, e.g. the failing one -/
+example : ∃ n r, Spec.parse env0 0 n "S" inp3 = some r := C01_terminates env0 0 (by decide) "S" inp3
+example : ∃ n r' g', parseAdvanced env0 n "S" inp3 0 = some (r', g') ∧ ∃ m, Spec.parse env0 0 m "S" inp3 = some (abs r') :=
+  C01_terminates_impl env0 env0_pure env0_noLeftrec (by decide) "S" inp3 0
+
+/-- `C01_sound_expr`: the closure `{'+' rest:Num}` of `S`, started in the middle of the input (offset 1, in front
+    of `" + 23"`) with the fresh global -/
+def ctxS : Ctx := ⟨true, ownFields env0 (ruleS []).definition⟩
+def cl : Expr := .closure (.choice [.seq [lit '+', .field (some (.ident "rest")) false "Num"]]) false
+def mid : St := ⟨inp1.drop 1, 1, none⟩
+theorem mid_wf : WfSt inp1 mid := wf_of (by decide)
+theorem cl_some : ((eval env0 20).expr ctxS cl mid (Global.init 0)).isSome = true := by decide
+example : (match (eval env0 20).expr ctxS cl mid (Global.init 0) with
+    | some (.ok p s, _) => (p.get "rest").map Val.render == some "[S\"3233\"]" && s.off == 6
+    | _ => false) = true := by decide
+example : ∃ m, (Spec.eval env0 0 m).expr ctxS cl (clr mid) =
+    some (abs (((eval env0 20).expr ctxS cl mid (Global.init 0)).get cl_some).1) :=
+  C01_sound_expr env0 env0_pure env0_noLeftrec inp1 0 20 ctxS cl mid (Global.init 0) mid_wf (good_init env0 0 inp1)
+    (run_eq cl_some)
+
+/-- the relational form: the PEG relation derives the abstraction of the model's answer -/
+example : Sem env0 0 (.rule "S") (St.new inp1) (abs ((parseAdvanced env0 20 "S" inp1 0).get run_some).1) :=
+  (C01_exactly_the_peg_language env0 env0_pure env0_noLeftrec "S" inp1 0).mpr ⟨20, _, _, run_eq run_some, rfl⟩
+
+/-! terminals on a text with 1-, 2- and 3-byte characters: `"aé€"`, cursor after `a` -/
+def cs : List Char := ['a', 'é', '€']
+def s1 : St := ⟨enc ['é', '€'], 1, none⟩
+theorem at1 : At cs ['a'] ['é', '€'] s1 := at_of (by decide)
+
+example : ∃ s', parseCharacterLiteral s1 'é' = .ok 'é' s' ∧ s'.off = 3 ∧ At cs ['a', 'é'] ['€'] s' := by
+  refine ⟨_, (C01_char_literal at1 'é' 'é' _).mpr ⟨rfl, ['€'], rfl, rfl, at_of (by decide)⟩, rfl, at_of (by decide)⟩
+example : ∃ s', parseCharacterRange s1 'à' 'ÿ' = .ok 'é' s' ∧ s'.off = 3 :=
+  ⟨_, (C01_char_range at1 'à' 'ÿ' 'é' _).mpr ⟨['€'], rfl, by decide, by decide, rfl, at_of (by decide)⟩, rfl⟩
+example : ∃ s', parseStringLiteral s1 ['é', '€'] = .ok () s' ∧ s'.off = 6 ∧ s'.rest = [] :=
+  ⟨_, (C01_string_literal at1 ['é', '€'] () _).mpr ⟨[], rfl, rfl, at_of (by decide)⟩, rfl, rfl⟩
+/-- `$` does not match here (two characters remain), it matches at the end -/
+example : ¬ ∃ s', parseEndOfInput s1 = .ok () s' := fun ⟨s', h⟩ => by
+  have := ((C01_end_of_input at1 () s').mp h).1; exact absurd this (by decide)
+example : parseEndOfInput ⟨[], 6, none⟩ = .ok () ⟨[], 6, none⟩ :=
+  (C01_end_of_input (cs := cs) (pre := cs) (rem := []) (at_of (by decide)) () _).mpr ⟨rfl, rfl⟩
+/-- case-insensitive literal `i"ab"` on `"AbC"` -/
+example : ∃ s', parseStringLiteralInsensitive (St.new (enc ['A', 'b', 'C'])) ['a', 'b'] = .ok () s' ∧ s'.off = 2 :=
+  ⟨_, (C01_insensitive_literal (cs := ['A', 'b', 'C']) (pre := []) (rem := ['A', 'b', 'C']) (at_of (by decide)) ['a', 'b']
+        (by decide) () _).mpr ⟨['A', 'b'], ['C'], rfl, by decide, rfl, at_of (by decide)⟩, rfl⟩
+
+/-! the PEG laws are statements about one step over an arbitrary `SRec`; instantiated at the real evaluator -/
+def rec19 : SRec := Spec.eval env0 0 19
+
+/-- `C01_choice_next` / `C01_seq_fail_first`: on `"abc"` the first alternative of `S` (starts with `Num`) fails -/
+def alt1 : Expr := .seq [.field (some (.ident "first")) false "Num",
+                   .closure (.choice [.seq [lit '+', .field (some (.ident "rest")) false "Num"]]) false]
+def alt2 : Expr := .seq [.field (some (.ident "word")) false "Word"]
+def sW : St := St.new [97, 98, 99]
+theorem alt1_fails : rec19.expr ctxS alt1 sW = some (.err noErr) := serr_of (by decide)
+example : Spec.evalAlts env0 rec19 ctxS ctxS.ruleFields [alt1, alt2] sW = Spec.evalAlts env0 rec19 ctxS ctxS.ruleFields [alt2] sW :=
+  C01_choice_next env0 rec19 ctxS _ alt1 [alt2] sW alt1_fails
+theorem first_fails : rec19.expr ctxS (.field (some (.ident "first")) false "Num") sW = some (.err noErr) := serr_of (by decide)
+example : Spec.stepExpr env0 rec19 19 ctxS alt1 sW = some (.err noErr) :=
+  C01_seq_fail_first env0 rec19 19 ctxS _ _ [] sW first_fails
+
+/-- `C01_choice_commits`: on `"1 + 23"` the first alternative matches, the choice ends where it ended -/
+example : ∃ out, Spec.stepExpr env0 rec19 19 ctxS (.choice [alt1, alt2]) (St.new inp1) = some out ∧
+    (∀ p s'', out = .ok p s'' → s''.off = 6) := by
+  obtain ⟨r, s', h, hp⟩ := sok_of (o := rec19.expr ctxS alt1 (St.new inp1)) (fun _ s => s.off == 6) (by decide)
+  obtain ⟨out, ho, hs⟩ := C01_choice_commits env0 rec19 19 ctxS alt1 alt2 [] (St.new inp1) h
+  exact ⟨out, ho, fun p s'' e => by rw [hs p s'' e]; simpa using hp⟩
+
+/-- `C01_closure_stops_on_failure`: the body of the closure fails at the end of `"1 + 23"` -/
+def bodyE : Expr := .choice [.seq [lit '+', .field (some (.ident "rest")) false "Num"]]
+def sEnd : St := ⟨[], 6, none⟩
+theorem body_fails : rec19.expr ctxS bodyE sEnd = some (.err noErr) := serr_of (by decide)
+example (acc : Parsed) : Spec.evalLoop (rec19.expr ctxS bodyE) [] 3 1 acc sEnd = some (.ok (1, acc) sEnd) :=
+  C01_closure_stops_on_failure _ _ 2 1 acc sEnd body_fails
+
+end C01_nv
+/-! ## non-vacuity (END) -/
 
 end Peg.Props
